@@ -5,10 +5,16 @@ import json, os, re, signal, subprocess, sys, time, hashlib, random
 from concurrent.futures import ThreadPoolExecutor
 
 VERIF = os.path.dirname(os.path.dirname(os.path.abspath(__file__)))
-EVID = os.path.join(VERIF, 'evidence')
-REPLAY = os.path.join(VERIF, 'replay')
-WORK = os.path.join(VERIF, '.build', 'work')
+_B = os.environ.get('VERIF_BUILD')       # set only for trials of seeded changes on a scratch copy: nothing of a trial lands in /verif/evidence
+EVID = os.path.join(_B, 'evidence') if _B else os.path.join(VERIF, 'evidence')
+REPLAY = os.path.join(_B, 'replay') if _B else os.path.join(VERIF, 'replay')
+WORK = os.path.join(_B or os.path.join(VERIF, '.build'), 'work')
 NJOBS = int(os.environ.get('VERIF_JOBS', '16'))
+
+
+class HarnessFailure(Exception):
+    """the machinery itself failed (exit 2, inconclusive), as opposed to the code under test"""
+
 
 ASAN_ENV = {
     'ASAN_OPTIONS': 'abort_on_error=0:detect_leaks=0:exitcode=99:allocator_may_return_null=1:'
@@ -230,11 +236,17 @@ def run_proc(cmd, timeout, env=None, cwd=None, stdin=None):
     e.update(ASAN_ENV)
     if env:
         e.update(env)
-    try:
-        p = subprocess.Popen(cmd, stdout=subprocess.PIPE, stderr=subprocess.PIPE, stdin=subprocess.PIPE if stdin is not None else subprocess.DEVNULL,
-                             env=e, cwd=cwd, start_new_session=True)
-    except OSError as ex:
-        return dict(rc=-999, out=b'', err=str(ex).encode(), timed_out=False, sig=None)
+    p = None
+    for attempt in range(6):         # the executable may be relinked by a concurrent build (EACCES/ETXTBSY): wait, never a verdict
+        try:
+            p = subprocess.Popen(cmd, stdout=subprocess.PIPE, stderr=subprocess.PIPE, stdin=subprocess.PIPE if stdin is not None else subprocess.DEVNULL,
+                                 env=e, cwd=cwd, start_new_session=True)
+            break
+        except OSError as ex:
+            last = ex
+            time.sleep(3)
+    if p is None:
+        raise HarnessFailure('cannot execute %s: %s' % (cmd[0], last))
     try:
         out, err = p.communicate(stdin, timeout=timeout)
         to = False
